@@ -961,6 +961,34 @@ class RangeEngine(Engine):
                     outs_.append((('adt', 'core::option::Option', 1, 'Some', [pay]), st_))
                 self.npaths += 1
                 return outs_
+        if nm == 'next' and re.search(r'Enumerate<', c) and re.search(r'Enumerate<core::slice::iter::Iter(Mut)?<', t.get('callee_args') or c):
+            # enumerate() over the elements of an array of known length N: item k is (k, &[mut] a[k]) with k ≤ N − 1
+            itv = vshow(self.purify(dv(0), s))
+            mar = re.search(r'call:slice::iter(?:_mut)?\(repeat\([^,()]*, (\d+)\)\)', itv)
+            if mar and int(mar.group(1)) >= 0:
+                n_ = int(mar.group(1))
+                s.nsym += 1
+                k_ = s.nsym
+                atom = ('term', 'call:' + short(c), [self.purify(dv(0), s)])
+                outs_ = []
+                s2 = s.fork()
+                for val, st_ in ((1, s2), (0, s)):
+                    if val and n_ == 0:
+                        continue
+                    st_.decisions.append((('term', 'discr', [atom]), val, (fn['path'], sp['line'])))
+                    if not val:
+                        outs_.append((('adt', 'core::option::Option', 0, 'None', []), st_))
+                        continue
+                    idx = ('sym', 'index#%d' % k_)
+                    self.types[key(idx)] = 'usize'
+                    il = P.lin(idx)
+                    if il is not None:
+                        st_.events.append(('fact', Lin(n_ - 1).add(il, -1)))
+                    elem = ('sym', 'elem#%d' % k_)
+                    self.types[key(elem)] = 'u8'
+                    outs_.append((('adt', 'core::option::Option', 1, 'Some', [('tuple', [idx, elem])]), st_))
+                self.npaths += 1
+                return outs_
         # ---- slices ----------------------------------------------------------------------------------
         if INDEX_RX.search(c) or (tc in ('core::ops::index::Index::index', 'core::ops::index::IndexMut::index_mut') and
                                   re.match(r'<(\[|&|alloc::vec::Vec|core::ops)', c) is None and c not in self.p.fns and
